@@ -264,7 +264,12 @@ func (p *parser) nextStatement() *Statement {
 	case tEOF:
 		return nil
 	case '}':
-		p.statementDepth -= 1
+		// A closing brace that nothing opened is reported by the caller;
+		// it must not lower the depth below the real nesting, or the
+		// limit on nesting stops bounding the recursion.
+		if p.statementDepth > 0 {
+			p.statementDepth -= 1
+		}
 		p.hitBrace.file = t.File
 		p.hitBrace.line = t.Line
 		p.hitBrace.col = t.Col
